@@ -23,6 +23,10 @@
  *          L loadDictionary_byReference | x refPrefix            (these six go through <api>)
  *          u ZSTD_compress_usingCDict | U ZSTD_compress_usingCDict_advanced (checksum) | d ZSTD_compress_usingDict |
  *          i ZSTD_initCStream_usingCDict + pledged size | B ZSTD_compressBegin_usingCDict_advanced(pledged) + ZSTD_compressEnd   (api ignored)
+ *          K a second context is prepared with ZSTD_compressBegin_usingDict(level) (size unknown), ZSTD_copyCCtx(ctx, prepared, size), ZSTD_compressEnd(ctx) |
+ *          J the same, prepared with ZSTD_compressBegin_advanced(ZSTD_getParams(level, size, dictSize), size)                      (api ignored)
+ *            the PREPARED context is fresh in the reference run; in the variant run with a history it has compressed two other frames before (so both the
+ *            destination of the copy and its source have a past: everything a later frame looks at must come over with the copy)
  *   api    2 ZSTD_compress2 | p compressStream2, pledged size, <chunk>-byte continue calls | k same without pledge (size unknown) |
  *          e one compressStream2(e_end) call carrying the whole input
  *   dict   content generated from the seed; r = raw content, z = ZDICT_finalizeDictionary (entropy tables + ID)
@@ -101,9 +105,22 @@ static void fill_cctxparams(ZSTD_CCtx_params* cp, const char* ps) {
     for (kv = strtok_r(pcopy, ",", &save); kv; kv = strtok_r(NULL, ",", &save)) { int id, val; if (sscanf(kv, "%d=%d", &id, &val) == 2) ZSTD_CCtxParams_setParameter(cp, (ZSTD_cParameter)id, val); }
 }
 
+static int g_prepared_has_history;   /* supply K / J: the prepared context of ZSTD_copyCCtx has compressed other frames before (variant run with a history) */
+
 /* one frame: parameters, dictionary supply, calls. The context is expected in the init stage (fresh or reset by the caller). */
 static size_t do_frame(ZSTD_CCtx* c, const Setup* s, char supply, void* dst, size_t cap, const unsigned char* x, size_t n, size_t* produced) {
     size_t r = 0, pos = 0, spins = 0; ZSTD_CDict* cd = NULL; *produced = 0;
+    if (supply == 'K' || supply == 'J') {
+        ZSTD_CCtx* const prep = ZSTD_createCCtx(); if (!prep) return ERROR(memory_allocation);
+        if (g_prepared_has_history) { size_t const yn = n / 2 + 1000; unsigned char* const y = (unsigned char*)malloc(yn); void* const t = malloc(ZSTD_compressBound(yn)); size_t k;
+            for (k = 0; k < yn; k++) y[k] = (unsigned char)(x[(k * 7) % n] ^ (k >> 9));
+            ZSTD_compressCCtx(prep, t, ZSTD_compressBound(yn), y, yn, s->level); ZSTD_compressCCtx(prep, t, ZSTD_compressBound(yn), y, yn / 3, s->level); free(y); free(t); }
+        if (supply == 'K') r = ZSTD_compressBegin_usingDict(prep, s->dict, s->dsz, s->level);
+        else r = ZSTD_compressBegin_advanced(prep, s->dict, s->dsz, ZSTD_getParams(s->level, n, s->dsz), n);
+        if (!ZSTD_isError(r)) r = ZSTD_copyCCtx(c, prep, n);
+        if (!ZSTD_isError(r)) r = ZSTD_compressEnd(c, dst, cap, x, n);
+        ZSTD_freeCCtx(prep); if (!ZSTD_isError(r)) *produced = r; return r;
+    }
     if (supply == 'u' || supply == 'U' || supply == 'd' || supply == 'B' || supply == 'i') {
         if (supply == 'd') { r = ZSTD_compress_usingDict(c, dst, cap, x, n, s->dict, s->dsz, s->level); if (!ZSTD_isError(r)) *produced = r; return r; }
         cd = ZSTD_createCDict(s->dict, s->dsz, s->level); if (!cd) return ERROR(memory_allocation);
@@ -196,11 +213,12 @@ int main(void) {
                     ZSTD_freeCCtxParams(cp);
                     if (strchr("lL", s.supply) || strchr(hist, 'c') || strchr(hist, 'd')) { printf("skip static-context-cannot-allocate-a-local-dictionary\n"); fail = 2; break; }
                     if (ZSTD_isError(need)) { printf("skip static-estimate-error\n"); fail = 2; break; }
-                    if (strchr("uUdBi", s.supply)) { need2 = ZSTD_estimateCStreamSize(level); if (!ZSTD_isError(need2) && need2 > need) need = need2; }
+                    if (strchr("uUdBiKJ", s.supply)) { need2 = ZSTD_estimateCStreamSize(level); if (!ZSTD_isError(need2) && need2 > need) need = need2; }
                     need += 1 << 20; staticMem = malloc(need + 64); memset(staticMem, fillbyte, need + 64);
                     cctx = ZSTD_initStaticCCtx((void*)(((size_t)staticMem + 63) & ~(size_t)63), need); isStatic = 1;
                     if (!cctx) { printf("skip static-init-null\n"); fail = 2; break; }
                 } else cctx = ZSTD_createCCtx();
+                g_prepared_has_history = 0;
                 if (run == 1 && nh && hist[0] != '-') {
                     size_t k; int advanced = strchr("nclLCx", s.supply) != NULL;
                     for (k = 0; k < nh; k++) { char const h = hist[k]; size_t yn = n / 2 + (size_t)((seed >> 3) + 7919 * k) % (n / 2 + 1), prod;
@@ -223,6 +241,7 @@ int main(void) {
                         else if (h == 'P') { if (ZSTD_isError(ZSTD_CCtx_reset(cctx, ZSTD_reset_parameters))) ZSTD_CCtx_reset(cctx, ZSTD_reset_session_and_parameters); }
                     }
                 }
+                g_prepared_has_history = (run == 1 && nh && hist[0] != '-');
                 r = do_frame(cctx, &s, s.supply, out[run], cap, x, n, &osz[run]);
                 if (ZSTD_isError(r)) { printf("err run%d %s\n", run, ZSTD_getErrorName(r)); fail = 1; }
                 if (!isStatic) ZSTD_freeCCtx(cctx); else { free(staticMem); staticMem = NULL; }
